@@ -1,6 +1,8 @@
 (* C13 — Cuckoo filter deletion and length accounting. Statements only. *)
 From GX.Model Require Import Base Murmur Cuckoo.
-From GX.Proofs Require Import ListLemmas CuckooProofs.
+From GX.Proofs Require Import ListLemmas CuckooProofs CuckooInv.
+From Coq Require Import ZArith.
+Open Scope N_scope.
 
 (* Length moves by exactly +1 on every Insert that returns, and not at all on any failed
    insert (full filter, destructive or not, or a runtime panic); for every hash, configuration,
@@ -24,6 +26,55 @@ Theorem C13_remove_iff_lookup : forall h64 f x,
   end.
 Proof. exact remove_iff_lookup. Qed.
 
+(* THE INVARIANT, for every configuration whose capacity fits in 64 bits, every hash, every history
+   of Insert/Remove (any flags, any random choices, failed inserts and panics included) on elements
+   that get a non-empty fingerprint: after the history
+     - Length = (inserts that returned) - (removes that returned true),
+     - Length = number of stored entries (occupied slots over all buckets),
+     - every bucket has exactly bucketSize slots and never more entries than that,
+     - if Length is back to 0 the filter IS a new filter (same parameters, all slots empty),
+       so every lookup is false.
+   (fp_ok is the regime in which the empty-fingerprint defect below does not apply.) *)
+Theorem C13_length_accounting : forall h64 size bsize fpl retries ops,
+  size * bsize < two64 ->
+  Forall (fun o => fp_ok h64 fpl (cop_elem o) = true) ops ->
+  let r := crun h64 (ck_new size bsize fpl retries) ops in
+  Z.of_N (q_len (fst r)) = snd r /\
+  q_len (fst r) = N.of_nat (stored (fst r)) /\
+  Forall (fun b => (occ (k_slots b) <= length (k_slots b))%nat /\
+                   length (k_slots b) = N.to_nat bsize /\ k_len b <= bsize) (q_buckets (fst r)) /\
+  (q_len (fst r) = 0 -> fst r = ck_new size bsize fpl retries).
+Proof. exact reach_accounting. Qed.
+
+(* the same invariant is inductive from ANY state satisfying it (not only from a new filter) *)
+Theorem C13_invariant_inductive : forall h64 ops f,
+  ck_inv f -> Forall (fun o => fp_ok h64 (q_fpl f) (cop_elem o) = true) ops ->
+  ck_inv (fst (crun h64 f ops)) /\ params (fst (crun h64 f ops)) = params f /\
+  Z.of_N (q_len (fst (crun h64 f ops))) = (Z.of_N (q_len f) + snd (crun h64 f ops))%Z.
+Proof. exact crun_inv. Qed.
+
+(* a Remove that returns true takes exactly one stored entry away *)
+Theorem C13_remove_takes_one_entry : forall h64 f x f',
+  ck_inv f -> fp_ok h64 (q_fpl f) x = true -> ck_remove h64 f x = Ok (true, f') ->
+  ck_inv f' /\ S (stored f') = stored f.
+Proof. exact remove_one_entry. Qed.
+
+(* non-vacuity: a concrete history on the murmur3 model meets the hypotheses: it fills a 4x1
+   filter, fails three inserts (two non-destructive, one destructive), removes two elements,
+   fails to remove the one the destructive insert displaced, and inserts again; the per-step
+   accounting is +1 +1 +1 +1 0 0 0 -1 -1 0 +1 and Length ends at 3 *)
+Definition c13_ops : list cop :=
+  [CIns [97] false true []; CIns [98] false true []; CIns [99] false false [0];
+   CIns [100] false true [0; 0]; CIns [101] false true [0; 0; 0]; CIns [102] false true [0; 0; 0];
+   CIns [103] true true [0; 0; 0]; CRem [97]; CRem [98]; CRem [99]; CIns [97] true true [1; 1; 1]].
+Fixpoint c13_deltas (f : cuckoo) (ops : list cop) : list Z :=
+  match ops with [] => [] | o :: t => cdelta murmur64 f o :: c13_deltas (cstep murmur64 f o) t end.
+Example C13_hypotheses_satisfiable :
+  4 * 1 < two64 /\ forallb (fun o => fp_ok murmur64 2 (cop_elem o)) c13_ops = true /\
+  c13_deltas (ck_new 4 1 2 3) c13_ops = [1; 1; 1; 1; 0; 0; 0; -1; -1; 0; 1]%Z /\
+  q_len (fst (crun murmur64 (ck_new 4 1 2 3) c13_ops)) = 3.
+Proof. vm_compute. repeat split; congruence. Qed.
+
 (* REFUTED for elements with an empty fingerprint: Length counts an element that is not stored *)
 Theorem C13_refuted_empty_fingerprint : exists f,
   ck_insert murmur64 (ck_new 4 1 25 3) [255; 254; 24] false true [] = InsOk f /\
@@ -33,3 +84,6 @@ Proof. eexists. split; [vm_compute; reflexivity|]. split; [reflexivity|]. repeat
 Print Assumptions C13_insert_length.
 Print Assumptions C13_remove_iff_lookup.
 Print Assumptions C13_refuted_empty_fingerprint.
+Print Assumptions C13_length_accounting.
+Print Assumptions C13_invariant_inductive.
+Print Assumptions C13_remove_takes_one_entry.
